@@ -104,6 +104,7 @@ def step (d : DSt) : List String → DSt × String
             | .error e => "err " ++ serrStr e
           ({ d with st := s' }, os ++ " | " ++ dump s')
       | _, _ => (d, "bad-op")
+  | ["refhyp"] => (d, "-")
   | ["dump"] => (d, dump d.st)
   | _ => (d, "bad-op")
 
